@@ -1,16 +1,42 @@
 (* C05Run.v — compares GenCodec.v (the four paths through generated code) with the payloads
    observed on the tapped connection between a generated proxy and a generated stub. *)
-From QV Require Import Wire Value GenDec ParseOpt GenCodec.
+From QV Require Import Wire Value GenDec ParseOpt GenCodec GenSeq.
 From Coq Require Import String List.
 Import ListNotations.
 Local Open Scope N_scope.
 
-Record c05case := {
-  k_kind : N;              (* 0 proxy->stub arguments; 1 stub->proxy result; 2 generated marshal -> generated unmarshal *)
-  k_tys : list ty;         (* declared types (one per argument; exactly one for kinds 1 and 2) *)
-  k_vals : list tval;      (* the values passed in; map entries in the order seen on the wire *)
-  k_bytes : string         (* payload observed (hex) *)
+(* one step of a sequence on one stub / proxy pair (GenSeq.v) with what was observed *)
+Record seqstep := {
+  s_op : N;                (* 0 Update<P> (helper), 1 Set<P> (proxy), 2 Signal<S> (helper), 3 Get<P> (proxy) *)
+  s_id : N;                (* action id of the property / signal *)
+  s_ty : ty;               (* its declared type *)
+  s_val : tval;            (* the value passed in (ignored for 3) *)
+  s_bytes : string         (* 0-2: payload of the event seen by the subscriber; 3: payload of the getter's reply *)
 }.
+
+Record c05case := {
+  k_kind : N;              (* 0 proxy->stub arguments; 1 stub->proxy result; 2 generated marshal -> generated unmarshal;
+                              3 a result the proxy refused; 4 a sequence *)
+  k_tys : list ty;         (* declared types (one per argument; exactly one for kinds 1, 2, 3) *)
+  k_vals : list tval;      (* the values passed in; map entries in the order seen on the wire *)
+  k_bytes : string;        (* payload observed (hex) *)
+  k_seq : list seqstep     (* kind 4 *)
+}.
+
+(* long containers of numbers are written by the harness as their little-endian bytes *)
+Fixpoint nums_aux (fuel w : nat) (bs : bytes) : list tval :=
+  match fuel, bs with
+  | S f, _ :: _ => VNum w (unle (firstn w bs)) :: nums_aux f w (skipn w bs)
+  | _, _ => []
+  end.
+Definition nums (w : nat) (bs : bytes) : list tval := nums_aux (List.length bs) w bs.
+Fixpoint numpairs_aux (fuel wk wv : nat) (bs : bytes) : list (tval * tval) :=
+  match fuel, bs with
+  | S f, _ :: _ => (VNum wk (unle (firstn wk bs)), VNum wv (unle (firstn wv (skipn wk bs))))
+                   :: numpairs_aux f wk wv (skipn (wk + wv) bs)
+  | _, _ => []
+  end.
+Definition numpairs (wk wv : nat) (bs : bytes) : list (tval * tval) := numpairs_aux (List.length bs) wk wv bs.
 
 Fixpoint all2 {A B} (f : A -> B -> bool) (l : list A) (m : list B) : bool :=
   match l, m with
@@ -29,7 +55,32 @@ Section WithCfg.
   Definition send_model (tys : list ty) (vals : list tval) : bytes :=
     if forallb refl_domain tys then proxy_send c vals else flat_map spec_enc vals.
 
-  Definition typed_ok (k : c05case) : bool := all2 has_ty (k_vals k) (k_tys k) && forallb good_ty (k_tys k).
+  Definition step_typed (s : seqstep) : bool :=
+    good_ty (s_ty s) && ((s_op s =? 3) || has_ty (s_val s) (s_ty s)).
+
+  Definition typed_ok (k : c05case) : bool :=
+    all2 has_ty (k_vals k) (k_tys k) && forallb good_ty (k_tys k) && forallb step_typed (k_seq k).
+
+  Definition op_of (s : seqstep) : sop :=
+    match s_op s with
+    | 0 => SUpdate (s_id s) (s_val s)
+    | 1 => SSet (s_id s) (s_val s)
+    | 2 => SSignal (s_id s) (s_val s)
+    | _ => SGet (s_id s)
+    end.
+
+  (* every observation of the sequence is the one GenSeq.srun computes from an empty store,
+     and the generated subscriber / getter of the declared type reads the value back from it *)
+  Definition obs_ok (s : seqstep) (m : option bytes) : bool :=
+    let bs := unhex (s_bytes s) in
+    match m with
+    | Some b =>
+        eqb_bytes b bs &&
+        ((s_op s =? 3) ||
+         match subscriber_recv (s_ty s) bs with ROk (v', []) => tval_eqb v' (s_val s) | _ => false end)
+    | None => false
+    end.
+  Definition seq_ok (l : list seqstep) : bool := all2 obs_ok l (srun [] (map op_of l)).
 
   Definition model_ok (k : c05case) : bool :=
     let bs := unhex (k_bytes k) in
@@ -44,6 +95,11 @@ Section WithCfg.
     | 2, [t], [v] =>
         eqb_bytes (emit v) bs &&
         match subscriber_recv t bs with ROk (v', []) => tval_eqb v' v | _ => false end
+    | 3, [t], [r] =>
+        (* the stub wrote the documented encoding; the reflection decoder of the proxy refuses it *)
+        eqb_bytes (stub_reply r) bs &&
+        match proxy_recv c t bs with RErr _ => true | _ => false end
+    | 4, [], [] => seq_ok (k_seq k)
     | _, _, _ => false
     end.
 
